@@ -215,8 +215,17 @@ def build(spec, lambda_backend=True):
             evs.append(pg.Event(rate=e["rate"], transition_list=tl))
         m = pg.model(lambda_backend=lambda_backend, state=list(spec["states"]), param=list(spec["params"]), event=evs)
         m.parameters = dict(spec["params"])
-    m.initial_values = (np.array(spec["x0"], dtype=float), np.float64(spec["t0"]))
+    m.initial_values = (x0_as_given(spec), np.float64(spec["t0"]))
     return m
+
+
+def x0_as_given(spec):
+    """the initial state in the number type the caller happens to have: floats, Python ints or an int64 array"""
+    if spec.get("x0_int") == "list":
+        return [int(v) for v in spec["x0"]]
+    if spec.get("x0_int") == "array":
+        return np.array([int(v) for v in spec["x0"]], dtype=np.int64)
+    return np.array(spec["x0"], dtype=float)
 
 
 def call_entry(m, spec, call, grid):
@@ -240,7 +249,7 @@ def call_entry(m, spec, call, grid):
             elif ent == "integrate2":
                 r = m.integrate2(t, full_output=full, method=meth)
             elif ent == "integrateFuncJac":
-                r = ode_utils.integrateFuncJac(m.ode_T, m.jacobian_T, np.array(spec["x0"], dtype=float), spec["t0"], t,
+                r = ode_utils.integrateFuncJac(m.ode_T, m.jacobian_T, x0_as_given(spec), spec["t0"], t,
                                                includeOrigin=origin, full_output=full, method=meth)
             else:
                 raise ValueError(ent)
@@ -492,7 +501,12 @@ def run(ck):
              (dict(spec_catalogue("SIR_norm"), t0=5000.0), [5000.02, 5000.04, 5000.06, 5000.08]),
              (dict(spec_catalogue("SIR_norm"), t0=738000.0), [738000.5, 738001.0, 738001.5]),
              # (c) solving backwards from the initial time: rows in the requested (decreasing) order
-             (dict(spec_catalogue("SIR_norm"), t0=1.0), [0.75, 0.5, 0.0, -1.0])]
+             (dict(spec_catalogue("SIR_norm"), t0=1.0), [0.75, 0.5, 0.0, -1.0]),
+             # (d) an initial state given as integers (counts): the solution is not integer-valued
+             (dict(spec_catalogue("SIR"), t0=0.0, x0_int="list"), [2.5, 5.0, 7.5, 10.0]),
+             (dict(spec_catalogue("SEIR"), t0=0.0, x0_int="array"), [1.0, 2.0, 4.0, 8.0]),
+             # (e) log-spaced output times: the longest interval is more than 1e4 times the shortest
+             (dict(spec_catalogue("SIR_norm"), t0=0.0), [float(v) for v in np.logspace(-4, 1.5, 12)])]
     for spec, grid in fixed:
         stats["grids"]["corpus"] = stats["grids"].get("corpus", 0) + 1
         # the long gap is run on the methods whose step budget (nsteps / mxstep = 10000) covers it; vode/ivode (BDF/Adams at
